@@ -283,6 +283,7 @@ pub fn exec_line(line: &str) -> String {
     let fields: Vec<&str> = line.split('\t').collect();
     match fields[0] {
         "OP" => exec_op(&fields[1..]),
+        "OPG" => exec_opg(&fields[1..]),
         "TOK" => exec_tok(&fields[1..]),
         "HIST" => run_history(fields[1], &fields[2..], |_, _| None).0.join(" ;; "),
         "REG" => exec_reg(&fields[1..]),
@@ -503,5 +504,38 @@ impl Context for GridCtx {
     }
     fn get_grid(&self, name: &str) -> Result<std::sync::Arc<dyn Grid>, Error> {
         self.grids.get(name).cloned().ok_or(Error::NotFound(name.to_string(), ": Grid".to_string()))
+    }
+}
+
+/// an `OP` case on a context that serves the given grid files by name (`GridCtx`)
+fn exec_opg(fields: &[&str]) -> String {
+    let n: usize = fields[0].parse().unwrap_or(0);
+    let mut ctx = GridCtx::new();
+    for i in 0..n {
+        if let Ok(g) = decode_grid(fields[2 + 3 * i], fields[3 + 3 * i]) {
+            ctx.grids.insert(unescape(fields[1 + 3 * i]), g);
+        }
+    }
+    let Some((spec, rest)) = parse_ctx(&fields[1 + 3 * n..]) else {
+        return "bad-case".to_string();
+    };
+    if rest.len() != 4 {
+        return "bad-case".to_string();
+    }
+    fill_ctx(&mut ctx, &spec);
+    let def = unescape(rest[0]);
+    let mode = rest[1];
+    let dir = dir_of(rest[2]);
+    let mut data = parse_data(rest[3]);
+    match Op::new(&def, &ctx) {
+        Err(e) => format!("err {}", err_class(&e)),
+        Ok(op) => {
+            let mut out = "ok".to_string();
+            if mode == "apply" || mode == "both" {
+                let n = op.apply(&ctx, &mut data, dir);
+                out += &format!(" n={} data={}", n, dump_data(&data));
+            }
+            out
+        }
     }
 }
